@@ -179,6 +179,46 @@ VMC_HARNESS(sch_timed_plain, "C06,C01") {
   vmc::note("ok");
 }
 
+
+// FIFO with several items pending at once: the context's only thread is parked inside item 0 while the producer enqueues
+// items 1..4 back to back (on the timed context all four read the same now(), so they tie on the due time), then item 0
+// returns.  The loop must run 1,2,3,4 in that order.  arg0: 0 single_thread_context, 1 timed_single_thread_context
+namespace {
+struct ParkRcv {
+  Item* it; Clock* k; bool* release;
+  void set_value() noexcept { vmc::publish(); ++it->count; it->how = 'V'; it->thread = vmc::self(); it->ran_at = k->tick(); vmc::wait_until([r = release] { return *r; }); }
+  void set_done() noexcept { ++it->count; it->how = 'D'; }
+  template <class E> void set_error(E&&) noexcept { ++it->count; it->how = 'E'; }
+  friend unstoppable_token tag_invoke(tag_t<get_stop_token>, const ParkRcv&) noexcept { return {}; }
+};
+template <class Ctx>
+void fifo_many_body() {
+  Clock k; Item items[5]; inplace_stop_source never; bool release = false;
+  {
+    Ctx ctx;
+    auto sched = ctx.get_scheduler();
+    auto op0 = unifex::connect(schedule(sched), ParkRcv{&items[0], &k, &release});
+    unifex::start(op0);
+    vmc::wait_until([&] { return items[0].count > 0; });   // the context thread is inside item 0 now
+    auto op1 = unifex::connect(schedule(sched), ItemRcv{&items[1], &k, never.get_token()});
+    auto op2 = unifex::connect(schedule(sched), ItemRcv{&items[2], &k, never.get_token()});
+    auto op3 = unifex::connect(schedule(sched), ItemRcv{&items[3], &k, never.get_token()});
+    auto op4 = unifex::connect(schedule(sched), ItemRcv{&items[4], &k, never.get_token()});
+    unifex::start(op1); unifex::start(op2); unifex::start(op3); unifex::start(op4);
+    release = true;
+    vmc::wait_until([&] { return items[1].count && items[2].count && items[3].count && items[4].count; });
+  }
+  for (int i = 1; i < 5; ++i) vmc::check(items[i].count == 1 && items[i].how == 'V', "C06,C01", "item-lost", "scheduled item did not run exactly once");
+  for (int i = 1; i < 4; ++i)
+    if (!(items[i].ran_at < items[i + 1].ran_at))
+      vmcrt::fail("C06", "fifo", ("items enqueued back to back while the loop was busy ran out of order: item " + std::to_string(i + 1) + " before item " + std::to_string(i)).c_str());
+  vmc::note("ok");
+}
+}  // namespace
+VMC_HARNESS(sch_fifo_many, "C06,C07") {
+  if (vmcrt::arg(0, 0) == 0) fifo_many_body<single_thread_context>(); else fifo_many_body<timed_single_thread_context>();
+}
+
 // trampoline: chains of nested schedule() with depth limit d: never nests deeper than d, every deferred item
 // runs before the outermost start() returns. sequential; chain length and depth are enumerated.
 namespace {
